@@ -7,7 +7,7 @@ def mon_send_reports(tier, b):
     quick = tier == "quick"
     prof = {"raw_garbage": 0.3, "p_garbage": 0.15, "hold_reports": 0.4, "max_rcpts": 4, "conc": [1, 2, 5, 10], "spawn": [3, 120, 255],
             "p_term_restart": 0.02}
-    res = histrun.run("C18", b, core.scaled(250 if quick else 4000), prof, ["NoLossOracle", "OnceOracle", "ReportFuzzOracle"], salt="rf")
+    res = histrun.run("C18", b, core.scaled(800 if quick else 8000), prof, ["NoLossOracle", "OnceOracle", "ReportFuzzOracle"], salt="rf")
     for v in res.violations:
         if not v["key"].startswith("C18/"):
             v["key"] = "C18/send/" + v["key"].replace("/", ":", 1)
